@@ -594,7 +594,7 @@ class FnIntervals:
     def eval(self, n, st):
         r = self._eval0(n, st)
         # a range established for this very expression by a dominating test (`address - page->address < K`)
-        if n is not None and n['k'] == 'BinaryOperator' and n.get('op') in ('-', '+'):
+        if n is not None and ((n['k'] == 'BinaryOperator' and n.get('op') in ('-', '+')) or n['k'] == 'ArraySubscriptExpr'):
             if any(isinstance(k_, tuple) and k_[0] == 'RNE' for k_ in st):
                 ek = self.expr_key(n)
                 if ek and ('RNE', ek[0]) in st:
@@ -1194,7 +1194,10 @@ class FnIntervals:
                         st2[('NZE', ek[0])] = (True, ek[1])
                 elif o in ('<', '<=', '>', '>=', '=='):
                     l2 = strip(l, casts=True)
-                    if l2['k'] == 'BinaryOperator' and l2.get('op') in ('-', '+'):
+                    if (l2['k'] == 'BinaryOperator' and l2.get('op') in ('-', '+')) or \
+                            (l2['k'] == 'ArraySubscriptExpr' and self._path_id(l2) is None):
+                        # `token[n] < '0'`: an element read through a variable subscript keeps the tested range until its
+                        # subscript, an array element or (for memory a call may change) a call intervenes
                         ek = self.expr_key(l2)
                         rv = self.eval(rhs, st)
                         if ek and not any(x_['k'] in ('CallExpr', 'CXXMemberCallExpr') for x_ in _walk(rhs)):
